@@ -40,7 +40,7 @@ def run_check(prop: str, tier: str) -> int:
     profile = REGISTRY[prop]
     seed = int(os.environ.get("VERIF_SEED", "0"))
     jobs = int(os.environ.get("VF_JOBS", "16"))
-    budget = float(os.environ.get("VERIF_BUDGET_S", "300" if tier == "quick" else "3000"))
+    budget = float(os.environ.get("VERIF_BUDGET_S", "300" if tier == "quick" else "1800"))
     cases = profile.cases(tier, seed)
     findings = [f for f in load_findings() if prop in f.get("properties", [])]
     for f in findings:
